@@ -657,3 +657,53 @@ func (r *Recorder) Finish() {
 	}
 	_ = os.WriteFile(filepath.Join(r.outDir, fmt.Sprintf("part-%d.hashes", r.Shard)), hb, 0o644)
 }
+
+// Batch is a set of cases judged concurrently: the case kind for "calling the
+// code under test from several goroutines at once gives the same verdicts as
+// calling it sequentially" (exposes state shared between calls).
+type Batch[C any] struct {
+	Cases   []C `json:"cases"`
+	Workers int `json:"workers"`
+	Rounds  int `json:"rounds"`
+}
+
+// ParallelJudge lifts a pure per-case judge to a Batch judge: every case must
+// pass sequentially, and must still pass when the batch is judged from
+// Workers goroutines at the same time, Rounds times.
+func ParallelJudge[C any](judge func(C) []Violation) func(Batch[C]) []Violation {
+	return func(b Batch[C]) []Violation {
+		for i, c := range b.Cases {
+			if vs := safeJudge(judge, c); len(vs) > 0 {
+				return []Violation{V("sequential:"+vs[0].Clause, "case %d fails on its own: %s", i, vs[0].Detail)}
+			}
+		}
+		workers := b.Workers
+		if workers < 2 {
+			workers = 2
+		}
+		var mu sync.Mutex
+		var out []Violation
+		for round := 0; round < b.Rounds && len(out) == 0; round++ {
+			var wg sync.WaitGroup
+			start := make(chan struct{})
+			for w := 0; w < workers; w++ {
+				wg.Add(1)
+				go func(w int) {
+					defer wg.Done()
+					<-start
+					for i := w; i < len(b.Cases); i += workers {
+						if vs := safeJudge(judge, b.Cases[i]); len(vs) > 0 {
+							mu.Lock()
+							out = append(out, V("concurrent-calls:"+vs[0].Clause, "case %d passes sequentially but fails when %d goroutines call concurrently (round %d): %s", i, workers, round, vs[0].Detail))
+							mu.Unlock()
+							return
+						}
+					}
+				}(w)
+			}
+			close(start)
+			wg.Wait()
+		}
+		return out
+	}
+}
